@@ -31,7 +31,8 @@ def omissions(ins, scope):
     return []
 
 
-ACCESS_INS = ["rn.3", "rn.s", "ra.2", "ca.s", "ca.4", "he.20", "re.20", "sa.s.aa", "sa.3.-", "un.9.6", "un.2.7", "dn.5",
+# he.21 / rn.9 / ra.9 / re.21 probe resources that are ABSENT from the pre-tick store: observing absence is a read too
+ACCESS_INS = ["rn.3", "rn.s", "ra.2", "ca.s", "ca.4", "he.20", "re.20", "he.21", "rn.9", "ra.9", "re.21", "sa.s.aa", "sa.3.-", "un.9.6", "un.2.7", "dn.5",
               "ue.21.s.3.8", "ue.20.4.3.8", "de.2.20", "se.20.bb", "se.20.-"]
 VIOLATING_INS = ["xw.2.5", "io.4", "pn"]
 GRAPH = "I1.1;N1.2.5;N1.3.5;N1.4.5;N1.5.6;N1.6.6;N1.258.6;E1.20.2.3.8;B1.20.aa;A1.2.0102;A1.4.01"
